@@ -87,6 +87,16 @@ def kwStr (kw : Kw) (k : String) : String :=
 
 /-! ### atoms: rows -/
 
+/-- more classes (extension, round 11): the R801 subtypes that name a variable, ACT_CR, ACT_FIO, ACT_FOR -/
+@[simp] def blankRow2 (cls : String) (kw : Kw) : Option (Option Row) :=
+  if cls = "V_IRF" then some (some (.irf 0 0))
+  else if cls = "V_ISR" then some (some (.isr 0 0))
+  else if cls = "V_TVL" then some (some (.tvl 0 0))
+  else if cls = "ACT_CR" then some (some (.cr 0 0 ""))
+  else if cls = "ACT_FIO" then some (some (.fio 0 0 "" (kwStr kw "cardinality")))
+  else if cls = "ACT_FOR" then some (some (.for_ 0 0 0 0 ""))
+  else none
+
 /-- `self.new('<cls>', k=v…)`: `some (some row)` a row with empty referentials, `some none` a class left out of FlatPop -/
 def blankRow (cls : String) (kw : Kw) : Option (Option Row) :=
   if cls = "ACT_BLK" then some (some (.blk false))
@@ -118,7 +128,27 @@ def blankRow (cls : String) (kw : Kw) : Option (Option Row) :=
   else if cls = "V_INS" then some (some (.vins 0 ""))
   else if cls = "V_TRN" then some (some (.vtrn 0))
   else if cls = "V_LOC" then some none
-  else none
+  else blankRow2 cls kw
+
+/-- THE TABLE, continued (extension, round 11): R603 of ACT_CR / ACT_FIO / ACT_FOR, R633, R639, R605 / R614 / R652,
+    R801 of V_IRF / V_ISR / V_TVL, R808, R809, R805 -/
+@[simp] def setRef2 (rel : Nat) (r : Row) (k : Nat) : Option Row :=
+  match rel, r with
+  | 603, .cr _ v kl => some (.cr k v kl)
+  | 603, .fio _ v kl c => some (.fio k v kl c)
+  | 603, .for_ _ b v sv kl => some (.for_ k b v sv kl)
+  | 633, .cr s _ kl => some (.cr s k kl)
+  | 639, .fio s _ kl c => some (.fio s k kl c)
+  | 605, .for_ s _ v sv kl => some (.for_ s k v sv kl)
+  | 614, .for_ s b _ sv kl => some (.for_ s b k sv kl)
+  | 652, .for_ s b v _ kl => some (.for_ s b v k kl)
+  | 801, .irf _ v => some (.irf k v)
+  | 801, .isr _ v => some (.isr k v)
+  | 801, .tvl _ v => some (.tvl k v)
+  | 808, .irf v _ => some (.irf v k)
+  | 809, .isr v _ => some (.isr v k)
+  | 805, .tvl v _ => some (.tvl v k)
+  | _, _ => none
 
 /-- THE TABLE, instance partners: association `rel`, held by row `r`, partner = row number `k` -/
 def setRef (rel : Nat) (r : Row) (k : Nat) : Option Row :=
@@ -174,7 +204,13 @@ def setRef (rel : Nat) (r : Row) (k : Nat) : Option Row :=
   | 814, .vint _ kl => some (.vint k kl)
   | 814, .vins _ kl => some (.vins k kl)
   | 814, .vtrn _ => some (.vtrn k)
-  | _, _ => none
+  | rel, r => setRef2 rel r k
+
+/-- the partners of the associations of `setRef2` that are not in `partnerOk` yet: all V_VAR -/
+@[simp] def partnerOk2 (rel : Nat) (y : Row) : Bool :=
+  match rel, y with
+  | 633, .var _ _ | 639, .var _ _ | 614, .var _ _ | 652, .var _ _ | 808, .var _ _ | 809, .var _ _ | 805, .var _ _ => true
+  | _, _ => false
 
 /-- THE TABLE, the class the partner of `rel` must have (the row at the other end) -/
 def partnerOk (rel : Nat) (y : Row) : Bool :=
@@ -185,7 +221,15 @@ def partnerOk (rel : Nat) (y : Row) : Bool :=
   | 668, .val _ | 626, .val _ | 625, .val _ | 659, .val _ | 801, .val _ | 802, .val _ | 803, .val _ | 804, .val _ => true
   | 634, .var _ _ | 615, .var _ _ | 616, .var _ _ | 617, .var _ _ | 618, .var _ _ | 619, .var _ _ | 620, .var _ _
   | 621, .var _ _ | 622, .var _ _ | 623, .var _ _ | 624, .var _ _ | 814, .var _ _ => true
-  | _, _ => false
+  | rel, y => partnerOk2 rel y
+
+/-- O_OBJ partners, continued (extension, round 11): R671, R677, R670 -/
+@[simp] def setElem2 (rel : Nat) (r : Row) (y : V) : Option Row :=
+  match rel, r, y with
+  | 671, .cr s v _, .obj kl => some (.cr s v kl)
+  | 677, .fio s v _ c, .obj kl => some (.fio s v kl c)
+  | 670, .for_ s b v sv _, .obj kl => some (.for_ s b v sv kl)
+  | _, _, _ => none
 
 /-- THE TABLE, partners that are model elements: O_OBJ (R672, R818, R819), R_REL (R653 – R656) -/
 def setElem (rel : Nat) (r : Row) (y : V) : Option Row :=
@@ -199,7 +243,7 @@ def setElem (rel : Nat) (r : Row) (y : V) : Option Row :=
   | 656, .uru s a b u _ ph, .rrel rr => some (.uru s a b u rr ph)
   | 666, .blk _, .actAct => some (.blk true)
   | 601, .blk o, .actAct => some (.blk o)
-  | _, _, _ => none
+  | rel, r, y => setElem2 rel r y
 
 /-- the key a link to row `k` stores: R682 / R683 name the ACT_IF by the Statement_ID it shares with its supertype row -/
 def linkKey (rel : Nat) (k : Nat) (y : Row) : Nat :=
@@ -232,6 +276,12 @@ def link661 (p : FlatPop) (earlier later : V) : Option FlatPop :=
      | _, _ => none)
   | _, _ => none
 
+/-- R820 to an S_DT the model does not name (the type of a variable, R848, is `V.ghost`): not stored (extension, round 11) -/
+@[simp] def relate820g (g : G) : V → V → Option G
+  | .inst _, .ghost _ => some g
+  | .ghost _, .inst _ => some g
+  | _, _ => none
+
 /-- `xtuml.relate(a, b, rel, phrase)` on instances that exist; `none`: xtuml raises (unknown association / classes) -/
 def relateV (g : G) (a b : V) (rel : Nat) (phrase : String) : Option G :=
   if rel = 661 then
@@ -242,7 +292,7 @@ def relateV (g : G) (a b : V) (rel : Nat) (phrase : String) : Option G :=
     match a, b with
     | .inst v, .dt t => some { g with tys := (v, t) :: g.tys }
     | .dt t, .inst v => some { g with tys := (v, t) :: g.tys }
-    | _, _ => none
+    | a, b => relate820g g a b
   else if rel = 848 || rel = 835 then some g
   else
     match linkFrom g.st.pop rel a b with
